@@ -4,6 +4,7 @@
 # run.sh build                   — build only (used by setup)
 set -u
 cd "$(dirname "$0")"
+HERE="$(pwd)"
 . ./goenv.sh
 WORK="${VERIF_WORK:-$VERIF_DIR/.work}"
 export VERIF_WORK="$WORK"
@@ -23,7 +24,7 @@ needs_overlay() { case "$1" in C10|C12) return 0;; *) return 1;; esac; }
 OVFLAGS=()
 prepare_overlay() {
   ( cd harness && go124 build -o "$WORK/ovgen.$$" ./cmd/ovgen ) || { echo "HARNESS-ERROR: cannot build ovgen" >&2; exit 2; }
-  "$WORK/ovgen.$$" -repo "$VERIF_REPO" -shim "$VERIF_DIR/harness/zzvsync_src" -out "$WORK/ov.$$" > "$WORK/ovgen.$$.log" 2>&1 || { echo "HARNESS-ERROR: ovgen failed:" >&2; cat "$WORK/ovgen.$$.log" >&2; exit 2; }
+  "$WORK/ovgen.$$" -repo "$VERIF_REPO" -shim "$HERE/harness/zzvsync_src" -out "$WORK/ov.$$" > "$WORK/ovgen.$$.log" 2>&1 || { echo "HARNESS-ERROR: ovgen failed:" >&2; cat "$WORK/ovgen.$$.log" >&2; exit 2; }
   OVFLAGS=(-tags ovl -overlay "$WORK/ov.$$/overlay.json")
 }
 
